@@ -86,15 +86,7 @@ Definition model_query_st (k : case) (vs : vstore) (fs : storeA vrec) (q : qry) 
 Definition vs_of (k : case) : vstore := if k_var k then var_store k else mkstore [] [].
 Definition fs_of (k : case) : storeA vrec := if k_var k then mkstore [] [] else fix_store k.
 
-(** the one class whose outcome the model does not determine (see VRead.last_span_garbage):
-    whatever the implementation returned is accepted *)
-Definition q_undetermined (k : case) (vs : vstore) (q : qry) : bool :=
-  k_var k && (queryable_tfs (q_req q) =? k_tfs k)
-  && last_span_garbage (k_tfs k) vs (fst (q_rs q)) (option_map fst (q_re q))
-       (eff_limit (q_req q) (queryable_tfs (q_req q)) (mk_lim (q_lim q))).
-
 Definition q_agrees (k : case) vs fs (q : qry) : bool :=
-  if q_undetermined k vs q then true else
   match model_query_st k vs fs q with
   | Ok l => (q_code q =? 0)%nat
             && recs_eqb l (match q_run q, k_dense k with
